@@ -1183,3 +1183,66 @@ Proof.
       { unfold clear_reg in U. destruct (r_used (rget (regs (pq e)) h)) eqn:UU; [reflexivity|congruence]. }
       apply (i_own _ _ I h U2).
 Qed.
+
+Lemma step_pub_batch e m vs : good_b m = true -> m_viol m = false -> Inv e m ->
+  R (fst (step e (OBatch vs))) (mon_step m (OBatch vs) (snd (step e (OBatch vs)))).
+Proof.
+  intros G V I. unfold step, step_gen. destruct (palive e) eqn:PA.
+  2:{ unfold mon_step. rewrite V. cbn. apply R_same; assumption. }
+  cbn [fst snd]. unfold mon_step. rewrite V. cbn [o_st okw Z.eqb negb o_wk].
+  destruct vs as [|v vs].
+  - cbn [push_batch fst snd mon_publish eqlz negb]. rewrite with_pq_same.
+    split; [apply good_add_bad; exact G|right; apply Inv_bad; exact I].
+  - unfold mon_publish. destruct (HALF <=? zlen (m_log m) + zlen (v :: vs) + 1) eqn:HB; [apply R_viol; exact G|].
+    unfold push_batch. rewrite <- (i_cl _ _ I).
+    destruct (wake_inv e m (v :: vs) (closed (pq e)) (palive e) G I) as (G' & I').
+    + unfold npub. lia.
+    + left. split; [discriminate|reflexivity].
+    + split; [exact G'|right; exact I'].
+Qed.
+
+Lemma step_pub e m v : good_b m = true -> m_viol m = false -> Inv e m ->
+  R (fst (step e (OPub v))) (mon_step m (OPub v) (snd (step e (OPub v)))).
+Proof.
+  intros G V I. unfold step, step_gen. destruct (palive e) eqn:PA.
+  2:{ unfold mon_step. rewrite V. cbn. apply R_same; assumption. }
+  cbn [fst snd]. unfold mon_step. rewrite V. cbn [o_st okw Z.eqb negb o_wk].
+  unfold mon_publish. destruct (HALF <=? zlen (m_log m) + zlen [v] + 1) eqn:HB; [apply R_viol; exact G|].
+  unfold push1. rewrite <- (i_cl _ _ I).
+  destruct (wake_inv e m [v] (closed (pq e)) (palive e) G I) as (G' & I').
+  - unfold npub. lia.
+  - left. split; [discriminate|reflexivity].
+  - split; [exact G'|right; exact I'].
+Qed.
+
+Lemma close_R e m pa : good_b m = true -> m_viol m = false -> Inv e m ->
+  R (mkT (fst (close_q (pq e))) (objs e) (nawt e) pa) (mon_close m (snd (close_q (pq e)))).
+Proof.
+  intros G V I. unfold close_q, mon_close. rewrite <- (i_cl _ _ I).
+  destruct (closed (pq e)) eqn:CL.
+  - cbn [fst snd eqlz negb]. split; [apply good_add_bad; exact G|right; apply Inv_bad].
+    destruct I as [A B C D E F G0 H I0 J]. constructor; assumption.
+  - destruct (wake_inv e m [] true pa G I) as (G' & I').
+    + pose proof (i_g _ _ I) as [G1 G2 G3 G4 G5 G6]. unfold npub. cbn. lia.
+    + right. split; reflexivity.
+    + cbn [rev app zlen length Z.of_nat] in G', I'. rewrite app_nil_r in G', I'.
+      split; [exact G'|right; exact I'].
+Qed.
+
+Lemma step_close e m : good_b m = true -> m_viol m = false -> Inv e m ->
+  R (fst (step e OClose)) (mon_step m OClose (snd (step e OClose))).
+Proof.
+  intros G V I. unfold step, step_gen. destruct (palive e) eqn:PA.
+  2:{ unfold mon_step. rewrite V. cbn. apply R_same; assumption. }
+  cbn [fst snd]. unfold mon_step. rewrite V. cbn [o_st okw Z.eqb negb o_wk].
+  unfold with_pq. apply close_R; assumption.
+Qed.
+
+Lemma step_destroy e m : good_b m = true -> m_viol m = false -> Inv e m ->
+  R (fst (step e ODestroyPub)) (mon_step m ODestroyPub (snd (step e ODestroyPub))).
+Proof.
+  intros G V I. unfold step, step_gen. destruct (palive e) eqn:PA.
+  2:{ unfold mon_step. rewrite V. cbn. apply R_same; assumption. }
+  cbn [fst snd]. unfold mon_step. rewrite V. cbn [o_st okw Z.eqb negb o_wk].
+  apply close_R; assumption.
+Qed.
